@@ -32,7 +32,10 @@ def role_cases():
     matches = ['admin', 'Admin', 'ADMIN', '%(r)s', 'a%(r)sb', 'Ämter', '', '%(target.role.name)s', 'dm', '%(r)s%(r)s',
                '%(r)s_%(target.role.name)s', '%%(r)s', '%(r)s)s']
     from contracts.native import HUGE
-    targets = [{}, {'r': 'admin'}, {'r': 'Dm'}, {'r': 1}, {'target.role.name': 'Admin', 'r': ''}, {'r': HUGE}]
+    import types
+    import collections
+    targets = [{}, {'r': 'admin'}, {'r': 'Dm'}, {'r': 1}, {'target.role.name': 'Admin', 'r': ''}, {'r': HUGE},
+               types.MappingProxyType({'r': 'admin'}), collections.UserDict({'r': 'Dm', 'target.role.name': 'dm'})]
     creds = [{}, {'roles': []}, {'roles': ['admin']}, {'roles': ['x', 'ADMIN']}, {'roles': ['aDmb']},
              {'roles': ['ämter']}, {'roles': ['']}, {'role': ['admin']}, {'roles': ['1']},
              {'roles': ['projectadmin', 'admin_ro', 'compute:admin']}, {'roles': ['x', 'y']},
@@ -41,7 +44,7 @@ def role_cases():
 
 
 def role_check(tier='quick', seed=0):
-    return _result('role_check small-scope', 'all (match, target, creds) over 13 matches (one and several placeholders, an escaped %) x 6 targets (one holding an integer beyond the digit limit of str()) x 12 credential '
+    return _result('role_check small-scope', 'all (match, target, creds) over 13 matches (one and several placeholders, an escaped %) x 8 targets (one holding an integer beyond the digit limit of str(), two that are mappings but not dicts) x 12 credential '
                    'shapes; distinct = cases inside the precondition', role_cases(), role_case)
 
 
